@@ -129,19 +129,25 @@ def build (fl : FL) (inp : Frag) : Reply :=
   | .err _ => .err
   | .panic k => .panic k
 
+/-- The counter updates of insert (after the fragment has been placed, or not). -/
+def FL.upd (fl : FL) (l : List Frag) (f : Frag) (t : Int) : FL :=
+  let e := u16 (f.byteOff + f.fragLength)
+  { list := l
+    highest := if fl.highest < e then e else fl.highest
+    current := u16 (fl.current + f.fragLength)
+    final := fl.final || !f.mf
+    lastSeen := t }
+
+/-- `f.FinalReceived && f.Highest == f.Current` -/
+def FL.ready (fl : FL) : Bool := fl.final && fl.highest == fl.current
+
 /-- fragmentList.insert -/
 def FL.insert (fl : FL) (f : Frag) (t : Int) : FL × Reply :=
   match place fl f with
   | none => (fl, .none)
   | some l =>
-    let e := u16 (f.byteOff + f.fragLength)
-    let fl' : FL :=
-      { list := l
-        highest := if fl.highest < e then e else fl.highest
-        current := u16 (fl.current + f.fragLength)
-        final := fl.final || !f.mf
-        lastSeen := t }
-    if fl'.final && fl'.highest == fl'.current then (fl', build fl' f) else (fl', .none)
+    let fl' := fl.upd l f t
+    (fl', if fl'.ready then build fl' f else .none)
 
 /-- IPv4Defragmenter: the ipFlows map as an association list (order is not observable). -/
 structure State where
